@@ -123,13 +123,15 @@ def scaled_exactly(x, y, k):
 def refine_check(coarse, ref, fac, n, periods, xi, dt2, duration, amax, dt):
     """response of the refined record read at the original instants vs the coarse response, per series and row, under the C01 tolerance
     at the refined step, relative to the series peak (the peak of the refined series: it samples the same solution more densely, and the
-    coarse samples alone can all sit near zero crossings, e.g. T == dt); -> (ok, worst err/tol, (series, row, err, tol))"""
+    coarse samples alone can all sit near zero crossings, e.g. T == dt), floored at the natural magnitude nat() (the two runs use
+    different B entries, whose rounding is relative to the terms added, not to a cancelling residue);
+    -> (ok, worst err/tol, (series, row, err, tol))"""
     ok, worst, where = True, 0.0, None
     for name, x, y in zip('uva', coarse, ref):
         ys = y[:, ::fac][:, :n]
         for j, T in enumerate(periods):
             tol = prop_tol(dt2, T, duration)
-            pk = max(peak(x[j]), peak(y[j]), FLOOR * nat(amax, dt, T)['uva'.index(name)], 1e-300)
+            pk = max(peak(x[j]), peak(y[j]), nat(amax, dt, T)['uva'.index(name)], 1e-300)
             if name == 'a' and T != 0:   # third series: w^2 u and 2 xi w v may cancel in it; errors are measured against the terms' peaks
                 w = C_NJ / T
                 pk = max(pk, w * w * max(peak(coarse[0][j]), peak(ref[0][j])), 2 * xi * w * max(peak(coarse[1][j]), peak(ref[1][j])))
@@ -140,17 +142,27 @@ def refine_check(coarse, ref, fac, n, periods, xi, dt2, duration, amax, dt):
     return ok, worst, where
 
 
+K_CANCEL = 32
+
+
 def prop_tol(dt_ref, T, duration):
-    """tolerance formula of property C01 (relative to the series peak) evaluated at step dt_ref"""
+    """tolerance formula of property C01 (relative to the series peak) evaluated at the refined step dt_ref:
+    1e-6 + 5e-8*duration/T + K*eps/(w*dt_ref)^3.  The last term is the cancellation in the B entries (terms of size 2 xi/(w^3 dt) + 1/w^2
+    cancel down to ~dt^2/6: relative error ~12 xi eps/(w dt)^3 per rounding).  Refinement pushes T/dt' up to 1.6e5, beyond C01's own range
+    (T/dt <= 2e4), and on records of 2-4 samples the series peak IS that ill-conditioned first step: measured constants up to 3.1 between
+    two impl runs (9.5 against the exact solution), so the relation is judged with K = 32; the term is < 1e-6 for T/dt' < 4e3."""
     if T == 0:
         return 1e-9
     w = 2 * math.pi / T
-    return 1e-6 + 5e-8 * duration / T + EPS / (w * dt_ref) ** 3
+    return 1e-6 + 5e-8 * duration / T + K_CANCEL * EPS / (w * dt_ref) ** 3
 
 
-def model_compare(ctx, periods, dt):
-    """compare(outs, value) for the nj_response handler: budget T (1e-9 of the series peak) + the eps/(w dt)^3 cancellation term"""
-    def compare(outs, val, periods_f=list(periods), dt_f=dt):
+def model_compare(ctx, periods, dt, amax):
+    """compare(outs, value) for the nj_response handler: budget T (1e-9 of the series peak) + the eps/(w dt)^3 cancellation term.
+    The peak is floored at the natural magnitude nat(): on records of 2-5 samples such as [-1, 2] the leading terms b11*a0 + b12*a1
+    cancel and the whole series is a residue ~1e-7 of the terms added, so impl and twin (which round the B entries differently)
+    agree to 1e-9 of the terms, not of the residue."""
+    def compare(outs, val, periods_f=list(periods), dt_f=dt, amax=amax):
         u, v, ac = val
         npd = len(periods_f)
         if len(outs) != 3 * npd:
@@ -160,7 +172,7 @@ def model_compare(ctx, periods, dt):
             extra = 0.0 if T == 0 else EPS / (C_NJ / T * dt_f) ** 3
             for name, arr, o in (('u', u[j], outs[3 * j]), ('v', v[j], outs[3 * j + 1]), ('a', ac[j], outs[3 * j + 2])):
                 m = p_floats(o)
-                pk = max(peak(arr), max((abs(x) for x in m), default=0.0))
+                pk = max(peak(arr), max((abs(x) for x in m), default=0.0), nat(amax, dt_f, T)['uva'.index(name)])
                 msg, g = cmp_budget([float(x) for x in arr], m, Fraction(1e-9 + 4 * extra), scale=pk, abs_floor=Fraction(1, 10 ** 300))
                 ctx.gap('response_series/' + name, g)
                 if msg:
@@ -231,7 +243,7 @@ def exhaustive(ctx, im):
                 table[(rec, key)] = r
                 if key in ('1', '12', '01'):  # model-level tie: one or two periods, with and without a leading zero
                     req = f"nj_response|{w_float(xi)}|{w_float(dt)}|{w_floats(ps)}|{w_floats(a)}"
-                    ctx.corr('response_series', req, ('ok', r), model_compare(ctx, ps, dt),
+                    ctx.corr('response_series', req, ('ok', r), model_compare(ctx, ps, dt, peak(a)),
                              inputs={'acc': a, 'dt': dt, 'periods': ps, 'xi': xi})
             ctx.count_case(('exh', rec, bi), gen.nontrivial_record(a),
                            sample={'fn': 'response_series (exhaustive)', 'record': list(rec), 'dt': dt, 'T1': T1, 'T2': T2, 'xi': xi}
@@ -622,7 +634,7 @@ def corpus(ctx, im):
         if base is None:
             continue
         ctx.corr('response_series', f"nj_response|{w_float(xi)}|{w_float(dt)}|{w_floats(periods)}|{w_floats(a)}", ('ok', base),
-                 model_compare(ctx, periods, dt), inputs=inp)
+                 model_compare(ctx, periods, dt, peak(a)), inputs=inp)
         ok = all(eq3(tuple(x[:, :s + 1] for x in base), im.resp(a[:s + 1].copy(), dt, periods, xi) or ()) for s in range(n))
         ctx.oracle('C02.b causality: response of a[:i+1] == first i+1 samples of the response of a (all split points, ==)', ok, inp)
         ok = True
